@@ -171,6 +171,16 @@ func (p *Program) ProvOf(v ssa.Value, path string) Prov {
 
 // ProvAt is ProvOf for a location read at instruction `at` (only stores that may reach `at` count).
 func (p *Program) ProvAt(v ssa.Value, path string, at ssa.Instruction) Prov {
+	if call, ok := p.lift[liftKey{v, at}]; ok {
+		// an operand of a lifted comparison helper: its provenance inside the helper, with the helper's parameters
+		// replaced by the arguments of this very call
+		if cals := p.Callees(call); len(cals) == 1 {
+			sub := p.prov(v, path, nil, 0)
+			out := Prov{}
+			p.substInto(out, sub, cals[0], call, 0)
+			return out
+		}
+	}
 	return p.prov(v, path, at, 0)
 }
 
@@ -678,6 +688,11 @@ func (p *Program) callResult(out Prov, call *ssa.Call, idx int, path string, dep
 				p.provInto(out, a, "", depth)
 			}
 		}
+		return
+	}
+	// copies: the result is the argument, element for element
+	if (strings.HasPrefix(name, "slices.Clone") || strings.HasPrefix(name, "bytes.Clone") || strings.HasPrefix(name, "strings.Clone")) && len(c.Args) == 1 {
+		p.provInto(out, c.Args[0], path, depth)
 		return
 	}
 	// field-sensitive coin constructors: Coin{Denom, Amount}
